@@ -18,7 +18,7 @@ tvars == <<l, b, dvars, ndg>>
 
 DFrozen == /\ ndg = 0 /\ ph = "idle" /\ att = 0 /\ e = 0 /\ inq = <<>> /\ q = 0
            /\ fault = [kind |-> "none", at |-> 0] /\ sent = <<>> /\ done = <<>>
-           /\ waited = 0
+           /\ waited = 0 /\ conf = DConfOf(DgScript("new", <<>>))
 Ev == Rec[l]
 Is(k) == l <= Len(Rec) /\ Ev.ev = k /\ l' = l + 1 /\ UNCHANGED <<dvars, ndg>>
 
